@@ -1,7 +1,7 @@
 # PeerReg.tla <-> internal/peer manager + agent disconnect cleanup on the controlled mesh (C32)
 import os
 import vf
-from _ctlreg import par, trace_actions
+from _ctlreg import par, trace_actions, path_cover as big_path_cover
 
 INVS = "TypeOK AtMostOneRegistered ThreadsOnlyWhenKept ItemsFromKept"
 PROPS = "RejectedDeliversNothing StaleTeardownHarmless"
@@ -49,7 +49,8 @@ def model(ctx):
 
 
 def replay(ctx, mdl, shards=None):
-    paths, nnodes, nedges = vf.path_cover(mdl["ideal"].edges)
+    cover = vf.path_cover if len(mdl["ideal"].edges) <= 20000 else big_path_cover
+    paths, nnodes, nedges = cover(mdl["ideal"].edges)
     ctx.rng.shuffle(paths)
     if os.environ.get("VERIF_CORRUPT"):
         # binding self-test: corrupt ONE expected state (the route survives... is claimed lost after a stale teardown /
